@@ -1070,6 +1070,25 @@ class ReplaceNodeTransformer(NodeTransformer):
         return super().generic_visit(node)
 
 
+def _shares_lines_with_other_code(statement: ast.stmt, lines: Sequence[str]) -> bool:
+    """Whether there is other code on the first or last line of the statement.
+
+    Replacements work on whole lines, so such statements (`def f(): x = 1`,
+    `x = 1; y = 2`) cannot be rewritten or removed without touching their neighbors.
+
+    """
+    end_lineno = getattr(statement, "end_lineno", None)
+    end_col_offset = getattr(statement, "end_col_offset", None)
+    if end_lineno is None or end_col_offset is None:
+        return False
+    if statement.lineno > len(lines) or end_lineno > len(lines):
+        return False
+    # column offsets count UTF-8 bytes
+    before = lines[statement.lineno - 1].encode("utf-8")[: statement.col_offset]
+    after = lines[end_lineno - 1].encode("utf-8")[end_col_offset:].strip()
+    return bool(before.strip()) or (bool(after) and not after.startswith(b"#"))
+
+
 class ReplacingNodeVisitor(BaseNodeVisitor):
     """A NodeVisitor that enables replacing AST nodes directly in errors."""
 
@@ -1091,6 +1110,8 @@ class ReplacingNodeVisitor(BaseNodeVisitor):
             return None
         transformer = ReplaceNodeTransformer(current_node, new_node)
         lines = self._lines()
+        if _shares_lines_with_other_code(current_statement, lines):
+            return None
         lines_to_remove = analysis_lib.get_line_range_for_node(current_statement, lines)
         indent = analysis_lib.get_indentation(lines[current_statement.lineno - 1])
         node = transformer.visit(current_statement)
@@ -1109,6 +1130,8 @@ class ReplacingNodeVisitor(BaseNodeVisitor):
         if current_statement is None:
             return None
         lines = self._lines()
+        if _shares_lines_with_other_code(current_statement, lines):
+            return None
         lines_to_remove = analysis_lib.get_line_range_for_node(current_statement, lines)
         return Replacement(lines_to_remove, [])
 
